@@ -240,7 +240,7 @@ def run(prop, tier, seed, only_replay=None):
         lines.append("  sig=%s variant=%s count=%d :: %s" % (sig, vs[0].get("variant"), len(vs), vs[0]["what"][:600]))
 
     for sig, vs in sorted(observations.items())[:10]:
-        lines.append("OBSERVATION (outside the statement of %s, not a violation): %s count=%d :: %s" % (prop, sig, len(vs), vs[0]["what"][:300]))
+        lines.append("OBSERVATION (outside the statement of %s, informational only): %s count=%d :: %s" % (prop, sig, len(vs), vs[0]["what"][:300]))
     wall = time.time() - t0
     level = getattr(check, "LEVEL", "model_checking")
     cov = dict(states=ctx.states, transitions=ctx.transitions,
